@@ -203,6 +203,33 @@ def runOps (s : St) : List Op → List LRes × St
 
 def finalState (s : St) (ops : List Op) : St := (runOps s ops).2
 
+/-! ### observers and iteration -/
+
+/-- `LimitedStream.tell()` -/
+def tell (s : St) : Nat := s.pos
+
+/-- `LimitedStream.is_exhausted` (`self._pos >= self.limit`) -/
+def isExhausted (s : St) : Bool := decide (s.limit ≤ s.pos)
+
+/-- `LimitedStream.readable()` -/
+def readable (_ : St) : Bool := true
+
+/-- `for line in stream: ...` (`IOBase.__iter__` returns the object itself): `__next__` is called
+until it raises — `StopIteration` ends the loop normally, anything else escapes from it. The result
+lists every `__next__` outcome in order; the last entry is the exception that ended the loop. -/
+def iterLoop : Nat → St → List LRes × St
+  | 0, s => ([], s)
+  | f + 1, s =>
+    match runOp s .next with
+    | (.error e, s') => ([.error e], s')
+    | (.ok l, s') =>
+      let (rs, s'') := iterLoop f s'
+      (.ok l :: rs, s'')
+
+/-- every line has at least one byte, so `limit - pos + 1` calls always reach the exception
+(`Lemmas.LimitedStream.iterLoop_ends`) -/
+def iterAll (s : St) : List LRes × St := iterLoop (s.limit - s.pos + 1) s
+
 /-- a freshly constructed `LimitedStream(stream, limit, is_max)` over a stream holding `data` that
 behaves as `script` says -/
 def fresh (data : Bytes) (script : List Beh) (limit : Nat) (isMax ri : Bool) : St :=
